@@ -467,7 +467,7 @@ def run(ctx, rep):
             s = f.impl_self or ""
             if ("MaxSharing" in s and "SwapChildren" not in (f.d.get("impl_trait_ref") or "")) or "EncodeSharing" in s:
                 n_sid += 1
-                names = [cs.name for cs in f.calls()] + [cs.name for c in F.closures_of(f) for cs in c.calls()]
+                names = F.call_names_deep(f, ("sharing_id",))
                 key = "%s::%s" % (s.replace("simplicity::", ""), f.name) + ("<Arc>" if "Arc<" in (f.d.get("impl_trait_ref") or "") else "")
                 if "sharing_id" in names:
                     rep.ok("C01.pairing", key + " keys nodes on Node::sharing_id", None)
